@@ -514,6 +514,37 @@ void Router::processActions(void)
                 junction->moveAttachedConns(actInf.newPosition);
             }
         }
+        else
+        {
+            // The obstacle is being deleted.  makeInactive() below turns
+            // the ConnEnds attached to it into free-floating points at
+            // their last position, but the connectors' end vertices would
+            // remain dummy pin vertices without any visibility.  So queue
+            // an update for each of these ends that makes it an ordinary
+            // end point at that position.  An update the user has queued
+            // for the same end in this transaction takes precedence.
+            for (ConnEndPtrSet::iterator it = obstacle->m_following_conns.begin();
+                    it != obstacle->m_following_conns.end(); ++it)
+            {
+                ConnEnd *connEnd = *it;
+                COLA_ASSERT(connEnd->m_conn_ref != nullptr);
+                ConnEnd freeEnd(connEnd->position());
+                ActionInfo modInfo(ConnChange, connEnd->m_conn_ref);
+                ActionInfoList::iterator found =
+                        find(actionList.begin(), actionList.end(), modInfo);
+                if (found == actionList.end())
+                {
+                    modInfo.conns.push_back(std::make_pair(
+                            connEnd->endpointType(), freeEnd));
+                    actionList.push_back(modInfo);
+                }
+                else
+                {
+                    found->addConnEndUpdate(connEnd->endpointType(),
+                            freeEnd, true);
+                }
+            }
+        }
 
         // Ignore this shape for visibility.
         // XXX: We don't really need to do this if we're not using Partial
